@@ -1,4 +1,273 @@
-import Kap.Basic
+/-
+Driver for C07. One op line per case (printed by harness/c07, which ran a REAL task on a real TaskMaster):
 
-/-- Driver for property C07 (replaced by the property's driver). -/
-def main : IO Unit := Kap.driverMain (fun _ _ => .badop "driver not implemented")
+  run <chain> <stop> <class> <n> => <acc> <stopres> <census> <outs> <late> <nodeerr>
+
+The driver
+  * evaluates the property (Kap.C07.holds, Spec/C07.lean) on the OBSERVED outcome — a violation is a SPECFAIL
+    unless a recorded deviation clause holds for the input, the violated clause is the one that finding is
+    about and the observation lies inside what the model predicts for that input (then KNOWN <key>);
+  * replays the schedule CLASS of the case on the model (Model/C07.lean) under two extreme scheduling
+    policies (stop goroutine first / pipeline first) and compares the observation with the predicted
+    outcome interval (MISMATCH when outside). Classes whose real execution is deterministic have a
+    one-point interval.
+-/
+import Kap.Basic
+import Kap.Model.C07
+import Kap.Spec.C07
+open Kap Kap.C07
+
+namespace Kap.C07.Drv
+
+/-- `defaultEdgeBufferSize` (edge.go) and `alert.DefaultEventBufferSize` (alert/topics.go). -/
+def edgeCap : Nat := 1000
+def handlerQueue : Nat := 5000
+
+structure NodeTok where
+  kind : Kind
+  shape : NodeShape
+
+def parseNode (t : String) : Option NodeTok :=
+  match t.splitOn ":" with
+  | ["from"] | ["where"] => some ⟨.pass, .plain⟩
+  | ["post"] => some ⟨.post, .syncOutput⟩
+  | ["alert"] => some ⟨.alert handlerQueue, .alertOutput⟩
+  | ["udf"] => some ⟨.udf, .udf⟩
+  | ["loop"] => some ⟨.loop, .loopback⟩
+  | ["influx", b] => b.toNat?.map (fun b => ⟨.influx b, .influxOutput⟩)
+  | ["fail", k] => k.toNat?.map (fun k => ⟨.fail k, .failing⟩)
+  | _ => none
+
+def parseStop : String → Option StopKind
+  | "task" => some .task | "delete" => some .delete | "close" => some .close | _ => none
+
+def parseClass : String → Option Class
+  | "drained" => some .drained | "gated" => some .gated | "immediate" => some .immediate | "early" => some .early | _ => none
+
+structure OutObs where
+  idx : Nat
+  total : Nat
+  distinct : Nat
+  missing : Nat
+
+def parseOut (t : String) : Option OutObs :=
+  match t.splitOn ":" with
+  | [i, tot, d, m, _] => do pure ⟨← i.toNat?, ← tot.toNat?, ← d.toNat?, ← m.toNat?⟩
+  | _ => none
+
+def parseOuts (t : String) : Option (List OutObs) :=
+  if t == "-" then some [] else (t.splitOn ",").mapM parseOut
+
+/-! ### Scheduling policies -/
+
+def nodeOrderPipe : List NAct := [.handle, .put, .take, .init, .closeOut, .exit, .putErr, .enqDrop]
+def nodeOrderStop : List NAct := [.helperExit, .enqDrop, .putErr, .exit, .closeOut, .init, .put, .take, .handle]
+
+/-- pipeline first, downstream nodes first; the stop goroutine and the write-buffer exit last. -/
+def prioPipe (s : State) : List Act :=
+  let idx := (List.range s.nodes.length).reverse
+  idx.flatMap (fun i => nodeOrderPipe.map (Act.node i)) ++
+  [.forkPut, .forkLock, .forkTake, .forkExit, .write, .thrExit, .stop] ++
+  idx.map (fun i => Act.node i .helperExit) ++ [.forkDrop]
+
+/-- the stop goroutine first, then everything that loses, then the pipeline upstream first. -/
+def prioStop (s : State) : List Act :=
+  let idx := List.range s.nodes.length
+  [.stop, .thrExit] ++ idx.map (fun i => Act.node i .helperExit) ++ [.forkDrop, .write, .forkTake, .forkLock, .forkPut, .forkExit] ++
+  idx.flatMap (fun i => nodeOrderStop.map (Act.node i))
+
+/-- a failing node first: downstream nodes first, errors before progress (used for chains with a failing node). -/
+def prioFail (s : State) : List Act :=
+  let idx := (List.range s.nodes.length).reverse
+  idx.flatMap (fun i => nodeOrderStop.map (Act.node i)) ++
+  [.forkDrop, .forkPut, .forkLock, .forkTake, .forkExit, .write, .thrExit, .stop]
+
+/-- Closed output gate: which actions are blocked inside an output call. -/
+def gateBlocks (s : State) : Act → Bool
+  | .node i a =>
+    match s.nodes[i]? with
+    | some nd =>
+      match nd.kind, a with
+      | .post, .put => true                       -- the node sits in doPost
+      | .alert _, .handle => true                 -- the handler goroutine sits in the POST
+      | .influx _, .put => nd.deliv > 0           -- writeBuffer.run sits in cli.Write
+      | _, _ => false
+    | none => false
+  | .stop =>
+    match s.ph with
+    | .stopF i =>
+      match s.nodes[i]? with
+      | some nd => (match nd.kind with | .influx _ => nd.deliv > 0 || nd.buf > 0 | _ => false)
+      | none => false
+    | _ => false
+  | _ => false
+
+def actName : Act → String
+  | .write => "write" | .forkTake => "forkTake" | .forkLock => "forkLock" | .forkPut => "forkPut" | .forkDrop => "forkDrop"
+  | .forkExit => "forkExit" | .stop => "stop" | .thrExit => "thrExit"
+  | .node _ a => match a with
+    | .init => "init" | .take => "take" | .put => "put" | .putErr => "putErr" | .enqDrop => "enqDrop" | .closeOut => "closeOut"
+    | .exit => "exit" | .tick => "tick" | .handle => "handle" | .helperExit => "helperExit"
+
+structure Run where
+  s : State
+  seen : List String := []     -- names of the loss / error actions that were executed
+
+def lossy : List String := ["forkDrop", "putErr", "enqDrop"]
+
+/-- Run the model under a priority policy until nothing allowed is enabled (or the fuel is spent). -/
+def runPol (cfg : Cfg) (prio : State → List Act) (allowed : State → Act → Bool) : Nat → Run → Run
+  | 0, r => r
+  | fuel + 1, r =>
+    match (prio r.s).findSome? (fun a => if allowed r.s a then (step cfg r.s a).map (fun s' => (a, s')) else none) with
+    | some (a, s') =>
+      let nm := actName a
+      let seen := if lossy.contains nm && !r.seen.contains nm then nm :: r.seen else r.seen
+      runPol cfg prio allowed fuel { s := s', seen := seen }
+    | none => r
+
+def noStop (_ : State) (a : Act) : Bool := a != .stop
+def noTick (a : Act) : Bool := match a with | .node _ .tick => false | _ => true
+
+structure Pred where
+  returned : Bool
+  leaked : Nat
+  deliv : List (Nat × Nat)   -- (node index, delivered) per output node
+  lostIngest : Nat
+  lostAt : List (Nat × Nat)  -- (node index, lost) for nodes that lost something
+  failed : Bool
+  seen : List String
+
+def isOutput : Kind → Bool
+  | .post | .alert _ | .influx _ => true
+  | _ => false
+
+def predOf (r : Run) : Pred :=
+  let s := r.s
+  let ns := s.nodes.zipIdx
+  { returned := s.ph = .finished
+    leaked := (ns.filter (fun p => !p.1.done)).length + (ns.filter (fun p => !p.1.helperDone)).length + (if s.thrDone then 0 else 1)
+    deliv := (ns.filter (fun p => isOutput p.1.kind)).map (fun p => (p.2, p.1.deliv))
+    lostIngest := s.lostIngest
+    lostAt := (ns.filter (fun p => p.1.lost > 0 || (p.1.done && p.1.inq > 0))).map (fun p => (p.2, p.1.lost + p.1.inq))
+    failed := s.nodes.any (fun nd => nd.failed)
+    seen := r.seen }
+
+/-- Replay the class of the case under one of the two extreme policies. -/
+def simulate (cfg : Cfg) (kinds : List Kind) (cls : Class) (n : Nat) (pol : Nat) : Pred :=
+  let fuel := 40 * (n + 10) * (kinds.length + 3) + 1000
+  let s0 := init kinds n
+  let stopFirst := pol == 0
+  let prio := if pol == 0 then prioStop else if pol == 1 then prioPipe else prioFail
+  let all := fun (_ : State) (a : Act) => noTick a
+  match cls with
+  | .drained =>
+    let r := runPol cfg prio (fun s a => noStop s a && noTick a) fuel { s := s0 }
+    predOf (runPol cfg prio all fuel r)
+  | .gated =>
+    let r1 := runPol cfg prioPipe (fun s a => noStop s a && noTick a && !gateBlocks s a) fuel { s := s0 }
+    let r2 := runPol cfg prioStop (fun s a => noTick a && !gateBlocks s a) fuel r1
+    predOf (runPol cfg prio all fuel r2)
+  | .immediate =>
+    -- all writes return first (with as little / as much pipeline progress as the policy wants)
+    let rec writes (fuel : Nat) (r : Run) : Run :=
+      match fuel with
+      | 0 => r
+      | f + 1 =>
+        if r.s.toWrite = 0 then r else
+        let r' := runPol cfg (if stopFirst then prioStop else prioPipe) (fun s a => noStop s a && noTick a) 1 r
+        writes f r'
+    let r1 := if stopFirst then writes fuel { s := s0 } else runPol cfg prioPipe (fun s a => noStop s a && noTick a) fuel { s := s0 }
+    predOf (runPol cfg prio all fuel r1)
+  | .early =>
+    predOf (runPol cfg prio all fuel { s := s0 })
+
+def between (x a b : Nat) : Bool := (min a b ≤ x) && (x ≤ max a b)
+
+def judge (_id : String) (lines : Array String) : Verdict := Id.run do
+  if lines.size != 1 then return .badop s!"expected one op line, got {lines.size}"
+  let l := lines[0]!
+  let (opT, obs) := splitObs (tokens l)
+  let [_, chainT, stopT, clsT, nT] := opT | return .badop l
+  let some toks := (chainT.splitOn ",").mapM parseNode | return .badop l
+  let some stop := parseStop stopT | return .badop l
+  let some cls := parseClass clsT | return .badop l
+  let some n := nT.toNat? | return .badop l
+  let kinds := Kind.pass :: toks.map (·.kind)
+  let input : Input := { chain := toks.map (·.shape), stop := stop, cls := cls, n := n }
+  let cfg : Cfg := { cap := edgeCap, viaClose := stop == .close, hookLock := false }
+  -- model predictions for this class
+  let pS := simulate cfg kinds cls n 0
+  let pP := simulate cfg kinds cls n 1
+  let hasFail := toks.any (fun t => t.shape == .failing)
+  let pF := if hasFail then simulate cfg kinds cls n 2 else pP
+  let canHang := !pS.returned || !pP.returned || !pF.returned
+  let mustHang := !pS.returned && !pP.returned && !pF.returned
+  let anyFailed := pS.failed || pP.failed || pF.failed
+  let mut br : List String := [clsT, stopT] ++ (toks.map (fun t => (t.kind |> fun k => match k with
+      | .pass => "k-pass" | .post => "k-post" | .alert _ => "k-alert" | .influx _ => "k-influx" | .udf => "k-udf" | .fail _ => "k-fail" | .loop => "k-loop"))).eraseDups
+  for nm in (pS.seen ++ pP.seen).eraseDups do br := br ++ [nm]
+  if pS.lostIngest > 0 || pP.lostIngest > 0 then br := br ++ ["ingest-loss"]
+  if !pS.lostAt.isEmpty || !pP.lostAt.isEmpty then br := br ++ ["node-loss"]
+  if canHang then br := br ++ ["model-hang"]
+  if anyFailed then br := br ++ ["node-failed"]
+  if pS.deliv == pP.deliv && pF.deliv == pP.deliv then br := br ++ ["deterministic"] else br := br ++ ["interval"]
+  if n > edgeCap then br := br ++ ["backlog>cap"]
+  -- the observation
+  match obs with
+  | ["invalid"] => return .mismatch s!"the harness could not run the case: {l}"
+  | ["panic"] => return .specfail "stop-completes" "the real code panicked (process died)"
+  | ["stuck"] => return .specfail "stop-completes" "the harness child process got stuck"
+  | [accT, stopres, censusT, outsT, lateT, nodeErrT] =>
+    let some acc := accT.toNat? | return .badop l
+    let some census := censusT.toNat? | return .badop l
+    let some outs := parseOuts outsT | return .badop l
+    let some _late := lateT.toNat? | return .badop l
+    let nodeErr := nodeErrT == "1"
+    if acc != n then return .mismatch s!"accepted {acc} of {n} writes"
+    let returned := stopres == "ok" || stopres == "err"
+    let outcome : Outcome :=
+      { accepted := acc, returned := returned, leaked := census,
+        delivered := outs.map (fun o => acc - o.missing), nodeFailed := nodeErr }
+    -- is the observation inside the model's interval?
+    let inModel : Bool := Id.run do
+      if returned && mustHang then return false
+      if !returned && !canHang then return false
+      if returned then
+        if !(between census pS.leaked pP.leaked || between census pS.leaked pF.leaked) then return false
+        if nodeErr != anyFailed then return false
+        if stopres == "err" && !nodeErr then return false
+        for o in outs do
+          match pS.deliv.lookup o.idx, pP.deliv.lookup o.idx, pF.deliv.lookup o.idx with
+          | some a, some b, some c =>
+            if !between o.total (min a (min b c)) (max a (max b c)) then return false
+            if o.total != o.distinct then return false
+            if o.total + o.missing != acc && !anyFailed then return false
+          | _, _, _ => return false
+        if outs.length != pS.deliv.length then return false
+      return true
+    let detail := s!"observed acc={acc} stop={stopres} census={census} outs={outsT} nodeerr={nodeErrT}; model stop-first returned={pS.returned} leaked={pS.leaked} deliv={pS.deliv} lostIngest={pS.lostIngest} lost={pS.lostAt}; pipeline-first returned={pP.returned} leaked={pP.leaked} deliv={pP.deliv} lostIngest={pP.lostIngest} lost={pP.lostAt}" ++ (if hasFail then s!"; failing-first deliv={pF.deliv} lost={pF.lostAt}" else "")
+    match failingClause outcome with
+    | some clause =>
+      if !inModel then return .specfail clause detail
+      -- explained by a recorded deviation?
+      if clause == "stop-completes" then
+        if devLoop input then return .known "loopback-stop-deadlock" detail
+        return .specfail clause detail
+      if clause == "accepted-points-delivered" then
+        if devInflux input && (pS.lostAt.any (fun p => (kinds[p.1]?.map (fun k => match k with | .influx _ => true | _ => false)).getD false)) then
+          return .known "influxdbout-stop-drops-backlog" detail
+        if devUdf input && (pS.lostAt.any (fun p => kinds[p.1]? == some .udf)) then
+          return .known "udf-stop-aborts-backlog" detail
+        if devIngest input && pS.lostIngest > 0 then return .known "ingest-edge-not-drained-on-stop" detail
+        return .specfail clause detail
+      return .specfail clause detail
+    | none =>
+      if !inModel then return .mismatch detail
+      let nt := (cls != Class.drained && n > 0) || cls == Class.early || anyFailed
+      return .ok nt br
+  | _ => return .badop l
+
+end Kap.C07.Drv
+
+def main : IO Unit := Kap.driverMain Kap.C07.Drv.judge
